@@ -98,6 +98,35 @@ def roundtrip(E, R, purpose, testnet, kind, form):
     return "ok"
 
 
+def two_parities(E, R, form, order):
+    """two extended public keys handled in one process whose keys are P and -P (same x coordinate, other parity byte):
+    each one re-serialises with its own key"""
+    version = SLIP132[(44, False, "pub")]
+    k, kb = cm.sym_scalar(E, "k")
+    keyA = E.H.sec(k)
+    if E.symbolic:
+        from sx.values import SxBytes
+        keyB = SxBytes([keyA[0] ^ 1]) + keyA[1:]
+    else:
+        keyB = bytes([keyA[0] ^ 1]) + keyA[1:]
+    c = E.bytes("c", 32)
+    keys = [keyA, keyB] if order == "P,-P" else [keyB, keyA]
+    payloads = [cm.xkey_payload(version, 3, b"\x0a\x0b\x0c\x0d", 9, c, kd) for kd in keys]
+    outs = []
+    for pl in payloads:
+        node = E.run(R.bip32.PubKeyNode.parse, _wrap(E, pl, form))
+        if isinstance(node, Raised):
+            E.fail("valid serialised extended public key parses (both y parities of an x on the curve)")
+            return "raised"
+        outs.append(E.run(node.extended_public_key))
+    for pl, s in zip(payloads, outs):
+        if isinstance(s, Raised):
+            E.fail("keys with equal x coordinate: each node re-serialises with its own key")
+            continue
+        E.check_eq(cm.b58_payload(E, R, s), pl, "keys with equal x coordinate: each node re-serialises with its own key")
+    return "ok"
+
+
 def stream_offset(E, R, kind, j):
     """parsing from a stream reads from the stream's current position: j bytes already consumed, then two keys back to back"""
     version = SLIP132[(44, False, kind)]
@@ -201,6 +230,9 @@ def cases(tier):
     cs.append(Case("unknown_version", "unknown_version", need=("a wallet cannot be built from an unknown version",)))
     for t in (False, True):
         cs.append(Case("master[%s]" % t, "master_ser", dict(testnet=t), need=("master xprv: zero depth, fingerprint, child number",)))
+    for form, order in (("str", "P,-P"), ("bytes", "-P,P")):
+        cs.append(Case("two_parities[%s,%s]" % (form, order), "two_parities", dict(form=form, order=order),
+                       need=("keys with equal x coordinate: each node re-serialises with its own key",)))
     return cs
 
 
